@@ -148,13 +148,13 @@ Check C04_concat_partial : forall (rs : list report) (rest : list N),
 (* ---- non-vacuity ---- *)
 Definition ex_reports : list report :=
   [RMouse 85 true 65534 0; RMouse 128 true 0 0; RCursor 0 0; RChar 8364; RLit [27; 91; 49; 53; 59; 54; 126];
-   RDecMode 2004 1; RKittyKey (KF 35) 255; RDevAttrs [62; 1; 2; 6; 2]; RSize 24 80 480 1280;
+   RDecMode 2004 1; RKittyKey (KF 35) 255 []; RKittyKey (KChar 97) 1 [Some 65]; RKittyKey (KChar 246) 0 [None; Some 59]; RDevAttrs [62; 1; 2; 6; 2]; RSize 24 80 480 1280;
    RPaste [104; 105; 226; 130; 172]; RKeyLevel 5; RLit [27; 91; 49; 59; 53; 82]; RXterm (KF 12) 7 false; RXterm KHome 0 true; RColor (TPalette 255) 1 2 15 Rgb1 true EndBEL; RColor TBg 31 2063 4095 Rgb3 false EndST; RColor TFg 33023 0 65535 Rgb4 false EndST; RKittyImage 7 (Some 3) (Some [69; 78; 79; 69; 78; 84]); RTermcapOk [([84; 78], [120; 116; 101; 114; 109]); ([99; 111], [50; 53; 54])] true; RTermcapFail [[82; 71; 66]] false; RFaceReport [48; 59; 49; 59; 52; 58; 51; 59; 51; 56; 58; 50; 58; 58; 49; 58; 50; 58; 51]].
 Example C04_nonvacuous :
   forallb (fun r => proved_family r && prod_wf r) ex_reports = true
   /\ map prod_denote ex_reports
      = [EMouse MWheelUp 261 65534 0; ERaw [27; 91; 60; 49; 50; 56; 59; 49; 59; 49; 77]; ECursor 0 0; EKey (KChar 8364) 0; EKey (KF 5) 5; EDecMode 2004 1;
-        EKey (KF 35) 255; EDevAttrs [1; 2; 6; 62]; ESize 24 80 480 1280; EPaste [104; 105; 226; 130; 172];
+        EKey (KF 35) 255; EKey (KChar 97) 1; EKey (KChar 246) 0; EDevAttrs [1; 2; 6; 62]; ESize 24 80 480 1280; EPaste [104; 105; 226; 130; 172];
         EKeyLevel 5; EKey (KF 3) 4; EKey (KF 12) 7; EKey KHome 0; EColor (TPalette 255) (RGBA 17 34 255 255); EColor TBg (RGBA 1 128 255 255); EColor TFg (RGBA 128 0 255 255); EKittyImage 7 (Some 3) (Some [69; 78; 79; 69; 78; 84]); ETermcap [([84; 78], Some [120; 116; 101; 114; 109]); ([99; 111], Some [50; 53; 54])]; ETermcap [([82; 71; 66], None)]; EFaceGet (mkFace (Some (RGBA 1 2 3 255)) None 11)]
   /\ length prod_key_table = 367%nat.
 Proof. split; [vm_compute; reflexivity|]. split; vm_compute; reflexivity. Qed.
